@@ -841,3 +841,67 @@ Definition conv_eqb (a b : conv) : bool :=
 
 Lemma conv_eqb_eq : forall a b, conv_eqb a b = true -> a = b.
 Proof. intros [] []; intro H; try discriminate H; reflexivity. Qed.
+
+(* ------------------------------------------------------------------ *)
+(* items(): the entries, each exactly once, sorted by key               *)
+(* ------------------------------------------------------------------ *)
+From Coq Require Import Permutation.
+
+Lemma str_leb_total : forall a b, str_leb a b = false -> str_leb b a = true.
+Proof.
+  induction a as [|x a IH]; intros [|y b] H; cbn [str_leb] in *;
+    try discriminate H; try reflexivity.
+  destruct (x <? y) eqn:E1; [discriminate H|].
+  destruct (y <? x) eqn:E2; [reflexivity|]. apply IH. exact H.
+Qed.
+
+Fixpoint sorted_keys (l : dict) : bool :=
+  match l with
+  | [] => true
+  | kv :: t => match t with
+               | [] => true
+               | kv' :: _ => str_leb (fst kv) (fst kv') && sorted_keys t
+               end
+  end.
+
+Lemma insert_sorted : forall kv l,
+    sorted_keys l = true -> sorted_keys (insert_kv kv l) = true.
+Proof.
+  intros kv l. induction l as [|a l IH]; intro H; cbn [insert_kv].
+  - reflexivity.
+  - destruct (str_leb (fst kv) (fst a)) eqn:E.
+    + cbn [sorted_keys]. rewrite E. exact H.
+    + apply str_leb_total in E. destruct l as [|b l'].
+      * cbn [insert_kv sorted_keys]. rewrite E. reflexivity.
+      * cbn [sorted_keys] in H. apply andb_true_iff in H.
+        destruct H as [Hab Hs]. specialize (IH Hs).
+        cbn [insert_kv] in *.
+        destruct (str_leb (fst kv) (fst b)) eqn:E2.
+        -- cbn [sorted_keys]. rewrite E, E2. exact Hs.
+        -- change (sorted_keys (a :: b :: insert_kv kv l') = true).
+           cbn [sorted_keys]. cbn [sorted_keys] in IH.
+           rewrite Hab. exact IH.
+Qed.
+
+Theorem items_sorted : forall d, sorted_keys (items d) = true.
+Proof.
+  induction d as [|kv d IH]; [reflexivity|].
+  cbn [items fold_right]. apply insert_sorted. exact IH.
+Qed.
+
+Lemma insert_perm : forall kv l, Permutation (insert_kv kv l) (kv :: l).
+Proof.
+  intros kv l. induction l as [|a l IH]; cbn [insert_kv].
+  - apply Permutation_refl.
+  - destruct (str_leb (fst kv) (fst a)); [apply Permutation_refl|].
+    apply perm_trans with (a :: kv :: l); [|apply perm_swap].
+    apply perm_skip. exact IH.
+Qed.
+
+Theorem items_perm : forall d, Permutation (items d) d.
+Proof.
+  induction d as [|kv d IH]; [apply perm_nil|].
+  cbn [items fold_right].
+  apply perm_trans with (kv :: items d); [apply insert_perm|].
+  apply perm_skip. exact IH.
+Qed.
